@@ -46,9 +46,16 @@ func schedHeapIndex(c *Ctx) *RuleResult {
 		Doc: "a queued operation / invocation is taken out of (or re-sorted in) a heap by ITS OWN position: every heap.Remove / heap.Fix / heapRemoveOrFix / heapMaybeFix / heapPushOrFix on a heap whose Swap maintains an index field is given that index field of an element as position (for heapPushOrFix: of the very element that is pushed); heap.Pop, which removes whatever is on top, is never called with its result discarded"}
 	p := c.P
 	idxField := heapIndexFields(p)
-	helpers := map[string]int{"heapRemoveOrFix": 1, "heapMaybeFix": 1, "heapPushOrFix": 1}
+	// the heap helpers of the package: plain functions taking (heap.Interface, position int, ...)
+	isHeapHelper := func(fn *types.Func) bool {
+		sig, ok := fn.Type().(*types.Signature)
+		if !ok || sig.Recv() != nil || sig.Params().Len() < 2 {
+			return false
+		}
+		return namedIs(sig.Params().At(0).Type(), "container/heap", "Interface") && isIntType(sig.Params().At(1).Type())
+	}
 	for _, u := range p.UnitsIn(schedPkg) {
-		if helpers[u.Fn.Name()] != 0 && u.Decl.Recv == nil {
+		if isHeapHelper(u.Fn) {
 			continue // the helpers themselves forward their parameters
 		}
 		info := u.Info()
@@ -71,7 +78,7 @@ func schedHeapIndex(c *Ctx) *RuleResult {
 				return true
 			}
 			isStd := fn.Pkg() != nil && fn.Pkg().Path() == "container/heap" && (fn.Name() == "Remove" || fn.Name() == "Fix")
-			isHelper := fn.Pkg() != nil && relPkg(fn.Pkg()) == schedPkg && helpers[fn.Name()] != 0
+			isHelper := fn.Pkg() != nil && relPkg(fn.Pkg()) == schedPkg && isHeapHelper(fn)
 			if !isStd && !isHelper {
 				return true
 			}
@@ -97,7 +104,7 @@ func schedHeapIndex(c *Ctx) *RuleResult {
 				r.bad(c.Prop, construct, posOf(p, call), "the position passed is not the "+want.Name()+" of an element: the wrong element is removed from / re-sorted in the heap")
 				return true
 			}
-			if fn.Name() == "heapPushOrFix" && len(call.Args) == 3 {
+			if isHelper && len(call.Args) == 3 && !isIntType(fn.Type().(*types.Signature).Params().At(2).Type()) {
 				if exprStr(ast.Unparen(pos).(*ast.SelectorExpr).X) != exprStr(call.Args[2]) {
 					r.bad(c.Prop, construct, posOf(p, call), "the position belongs to a different element than the one that is pushed")
 					return true
@@ -178,6 +185,33 @@ func schedExecutingCount(c *Ctx) *RuleResult {
 		for _, w2 := range FieldWrites([]*FuncUnit{u}, ew, false) {
 			if inc, ok := w2.Node.(*ast.IncDecStmt); ok && inc.Tok == token.DEC && inc.Pos() < del.Pos() {
 				dec = true
+			}
+		}
+		// equivalent form: the entry is read, deleted when it is exactly 1, and otherwise stored back
+		// minus one
+		if !dec && !okZero {
+			okOne, storesBack := false, false
+			var countVar string
+			for _, g := range flattenGuards(GuardsOf(info, u.Decl.Body, del)) {
+				be, ok := ast.Unparen(g.Cond).(*ast.BinaryExpr)
+				if !ok || !g.Pos || be.Op != token.EQL || exprStr(be.Y) != "1" {
+					continue
+				}
+				if ix, ok := ast.Unparen(resolveLocalAlias(u, be.X)).(*ast.IndexExpr); ok && fieldOf(info, ix.X) == ew && exprStr(ix.Index) == key {
+					okOne = true
+					countVar = exprStr(be.X)
+				}
+			}
+			for _, w2 := range FieldWrites([]*FuncUnit{u}, ew, false) {
+				if as, ok := w2.Node.(*ast.AssignStmt); ok && w2.RHS != nil {
+					if be, ok := ast.Unparen(w2.RHS).(*ast.BinaryExpr); ok && be.Op == token.SUB && exprStr(be.X) == countVar && exprStr(be.Y) == "1" {
+						_ = as
+						storesBack = true
+					}
+				}
+			}
+			if okOne && storesBack {
+				okZero, dec = true, true
 			}
 		}
 		if okZero && dec {
